@@ -5,7 +5,7 @@
 
 use crate::drain::{check_eos_truthful, check_hints, check_terminated_stays, drain, DrainOpts, Ev, Trace};
 use crate::engine::*;
-use crate::entity::{FaultKind, HarnessError};
+use crate::entity::{EntitySpec, FaultKind, HarnessError, ReqSpec};
 use crate::props::c01::{opts_for, Case};
 use crate::props::c07::{self, FCase};
 use crate::reqgen::{self, Profile};
@@ -78,7 +78,11 @@ fn check_serve(c: &Case, acc: &mut Acc, c20: bool) -> Check {
     let t = &served.trace;
     let multipart = served.head.all("content-type").iter().any(|v| v.starts_with(b"multipart/"));
     let label = serve_label(served.head.status, multipart);
-    let ctx = || format!("entity len={} plan={:?}; request {} {:?}", c.ent.len, c.ent.plan, c.req.method, c.req.headers);
+    let ctx = || {
+        // a Range header of hundreds of KB is cut in the message (the replay file holds the case)
+        let hs: Vec<(String, String)> = c.req.headers.iter().map(|(k, v)| (k.clone(), if v.0.len() > 400 { format!("{}...({} bytes)", crate::util::show_bytes(&v.0[..200]), v.0.len()) } else { crate::util::show_bytes(&v.0) })).collect();
+        format!("entity len={} plan={:?}; request {} {:?}", c.ent.len, c.ent.plan, c.req.method, hs)
+    };
     if c20 {
         if t.steps.iter().any(|s| matches!(s.ev, Ev::Panic(_))) {
             acc.count("aborted-by-panic-in-drain(see C13)");
@@ -194,6 +198,32 @@ fn run_both(cx: &Cx, c20: bool) -> Acc {
         });
     }));
     acc.merge(par_proptest(cx, "fault-random", 40_000 * n, c07::random_strategy, |c, acc| check_fault(c, acc, c20)));
+    // Part *counts* around 2^15 and 2^16 (a Range header of 0.4-0.9 MB) with a failing or short
+    // stream in one of the first parts, polled on after the error.
+    let counts: Vec<usize> = vec![255, 256, 257, 32_767, 32_768, 32_769, 65_535, 65_536, 65_537];
+    acc.merge(par_units(cx, "many-parts-fault", &counts, false, "multipart answers of n one-byte parts, n around 2^8, 2^15 and 2^16, with an error / early end in part 0, 1 or 2, extra polls afterwards", |cx, &n, acc| {
+        let mut v = String::with_capacity(n * 14 + 8);
+        v.push_str("bytes=");
+        for i in 0..n {
+            if i > 0 {
+                v.push(',');
+            }
+            let p = i as u64 * 1000;
+            v.push_str(&format!("{p}-{p}"));
+        }
+        for j in 0..3u32 {
+            for kind in [FaultKind::Error, FaultKind::EndEarly] {
+                if !c20 && kind != FaultKind::Error {
+                    continue;
+                }
+                let c = Case {
+                    ent: EntitySpec { faults: vec![crate::entity::Fault { call: j, chunk: 0, kind, extra: 0 }], ..EntitySpec::simple(1 << 40) },
+                    req: ReqSpec::get().with("range", v.as_str()),
+                };
+                acc.run_case(cx, "many-parts-fault", &json!({"parts": n, "fault_in_part": j, "kind": format!("{kind:?}")}), |acc| check_serve(&c, acc, c20));
+            }
+        }
+    }));
     let kinds: Vec<usize> = (0..5).collect();
     acc.merge(par_units(cx, "body-from", &kinds, true, "every Body::from conversion and Body::empty, lengths 0..=4096", |cx, &k, acc| {
         for len in 0..=4096usize {
@@ -233,6 +263,17 @@ fn replay_both(cx: &Cx, phase: &str, case: &Value, acc: &mut Acc, c20: bool) -> 
         "sched-sampled" => {
             let c: crate::sched::SchedCase = serde_json::from_value(case.clone()).map_err(dec)?;
             crate::sched::check_c12(&c, acc).0
+        }
+        "many-parts-fault" => {
+            let n = case["parts"].as_u64().unwrap_or(2) as usize;
+            let j = case["fault_in_part"].as_u64().unwrap_or(0) as u32;
+            let kind = if case["kind"].as_str() == Some("EndEarly") { FaultKind::EndEarly } else { FaultKind::Error };
+            let v: Vec<String> = (0..n as u64).map(|i| format!("{}-{}", i * 1000, i * 1000)).collect();
+            let c = Case {
+                ent: EntitySpec { faults: vec![crate::entity::Fault { call: j, chunk: 0, kind, extra: 0 }], ..EntitySpec::simple(1 << 40) },
+                req: ReqSpec::get().with("range", format!("bytes={}", v.join(","))),
+            };
+            check_serve(&c, acc, c20)
         }
         "body-from" => check_from(case["len"].as_u64().unwrap_or(0) as usize, case["kind"].as_u64().unwrap_or(0) as usize, acc, c20),
         _ => crate::props::stream::replay_for_c12_c20(cx, phase, case, acc, c20),
